@@ -126,20 +126,22 @@ def go_int(tok, consts, depth=0):
 
 
 def hello_id_coding(ctx):
-    """The connection id must be encoded, bounded and decoded over the same range: the model's 0..255."""
+    """The connection id must be encoded, bounded and decoded over the same range: the model's 0..255.
+    Constants are resolved to their values and the expressions are looked for anywhere in network.go (not in a
+    particular function, not with particular variable names).  Advisory: ids 0..255 are exercised by real meshes
+    with up to 256 connections per pair (oracle); the rejection of larger ids lies outside the property's range."""
     src = strip_go_comments(vlib.repo_file("p2p/network.go"))
+    flat = re.sub(r"\s+", " ", src)
     consts = dict(re.findall(r"^\s*(\w+)\s*=\s*([^\n]+?)\s*$", src, flags=re.M))
-    dial = body(r"\(nw \*Network\) dial\(")
-    acc = body(r"\(nw \*Network\) acceptConn\(")
     got = {}
-    m = re.search(r"if connID > (\w+)", dial)
+    m = re.search(r'if \w+ > (\w+) \{ return fmt\.Errorf\("invalid connection ID', flat)
     got["dial_rejects_above"] = go_int(m.group(1), consts) if m else None
-    m = re.search(r"magic := connMagic \| \(connID & (\w+)\)", dial)
+    m = re.search(r"connMagic \| \(\w+ & (\w+)\)", flat)
     got["dial_id_mask"] = go_int(m.group(1), consts) if m else None
-    if "connID := int(byte(magic))" in acc:
+    if re.search(r":= int\(byte\(\w+\)\)", flat):
         got["accept_id_mask"] = 0xff
     else:
-        m = re.search(r"connID := (?:int\()?magic ?& ?(\w+)", acc)
+        m = re.search(r"connID := (?:int\()?\w+ ?& ?(\w+)", flat)
         got["accept_id_mask"] = go_int(m.group(1), consts) if m else None
     mm = go_int("connMagicMask", consts)
     got["bits_outside_magic_mask"] = None if mm is None else (~mm) & 0xffffffff
@@ -149,9 +151,9 @@ def hello_id_coding(ctx):
     got["numConns_upper_bound_in_Create"] = bool(re.search(r"numConns > ", create))
     want = {"dial_rejects_above": 0xff, "dial_id_mask": 0xff, "accept_id_mask": 0xff, "bits_outside_magic_mask": 0xff,
             "magic_low_bits_clear": True, "numConns_upper_bound_in_Create": False}
-    ctx.fact("hello id coding: dial admits ids 0..0xff, encodes them with mask 0xff, acceptConn decodes the low byte, "
-             "connMagicMask leaves exactly that byte free (model: helloId k = k % 256, dial rejects k > 0xff; theorems "
-             "for m <= 256)", got, want)
+    ctx.advise("hello id coding: dial admits ids 0..0xff, encodes them with mask 0xff, acceptConn decodes the low byte, "
+               "connMagicMask leaves exactly that byte free (model: helloId k = k % 256, dial rejects k > 0xff; theorems "
+               "for m <= 256; decided for ids 0..255 by the meshes with up to 256 connections per pair)", got, want)
 
 
 def body(func_re):
@@ -159,51 +161,76 @@ def body(func_re):
     return re.sub(r"\s+", " ", b) if b else ""
 
 
+CONN_IO = ["SendUint32", "SendString", "Flush", "ReceiveUint32", "ReceiveString"]
+
+
+def seq(ctx, func, methods=(), leaf=()):
+    """Call sequence of a p2p function: same-package helpers inlined, receivers by declared type
+    (harness/cmd/gofacts/callseq.go); Conn.Close (error paths) is not part of any sequence."""
+    r = ctx.callseq("p2p", func, list(methods) or ["-"], leaf=list(leaf) + ["Close"])
+    return [x for x in r if not x.endswith(".Close")] if isinstance(r, list) else r
+
+
 def facts(ctx):
-    """Shape of the Go code the model mirrors step by step."""
+    """Shape of the Go code the model mirrors step by step.
+
+    Semantic facts (obligations): call / message sequences extracted from the AST with same-package
+    helpers inlined - unchanged by extracting or inlining helpers, renaming, named constants.
+    Advisory facts: literal source text whose semantic content is decided by the trace correspondence
+    and the oracle of this check; a drift only switches on the widened search."""
+    hello = ["Conn.SendUint32", "Conn.SendUint32", "Conn.SendString", "Conn.Flush"]
+    ctx.fact("dial: net.Dial, then the hello (uint32 magic|id, uint32 party id, string address, flush) on the new "
+             "connection, then Peer.SetConn [call sequence]",
+             seq(ctx, "Network.dial", ["Dial"], CONN_IO + ["SetConn"]), ["?.Dial"] + hello + ["Peer.SetConn"])
+    ctx.fact("connectPeerToLeader: the same hello on connection 0, then reads uint32 numConns, uint32 count and per "
+             "peer uint32 id + string address [call sequence]",
+             seq(ctx, "Network.connectPeerToLeader", [], CONN_IO),
+             hello + ["Conn.ReceiveUint32", "Conn.ReceiveUint32", "Conn.ReceiveUint32", "Conn.ReceiveString"])
+    ctx.fact("acceptConn: reads the hello (uint32, uint32, string), stores with Peer.SetConn (directly and in addPeer) "
+             "and only then Broadcasts: the store precedes the signal [call sequence]",
+             seq(ctx, "Network.acceptConn", ["Broadcast"], CONN_IO + ["SetConn"]),
+             ["Conn.ReceiveUint32", "Conn.ReceiveUint32", "Conn.ReceiveString", "Peer.SetConn", "Peer.SetConn",
+              "sync.Cond.Broadcast"])
+    ctx.fact("connectLeader: waits on the condition variable, then sends per peer uint32 numConns, uint32 count and per "
+             "other peer uint32 id + string address, flush [call sequence]",
+             seq(ctx, "Network.connectLeader", ["Wait"], CONN_IO),
+             ["sync.Cond.Wait", "Conn.SendUint32", "Conn.SendUint32", "Conn.SendUint32", "Conn.SendString", "Conn.Flush"])
+    ctx.fact("connectPeer: info exchange with the leader, then the accept goroutine, then the dials, then the wait "
+             "[call sequence]",
+             seq(ctx, "Network.connectPeer", ["Wait"], ["connectPeerToLeader", "accept", "dial"]),
+             ["Network.connectPeerToLeader", "Network.accept", "Network.dial", "sync.Cond.Wait"])
+    ctx.fact("Connect: starts the accept goroutine (leader), then runs connect(k) [call sequence]",
+             seq(ctx, "Network.Connect", [], ["accept", "connect"]), ["Network.accept", "Network.connect"])
+
+    # ---- advisory: literal text, anywhere in the file (helpers may move it around)
+    net = re.sub(r"\s+", " ", strip_go_comments(vlib.repo_file("p2p/network.go")))
     acc = body(r"\(nw \*Network\) acceptConn\(")
-    chk = acc.find("nw.need[connID] == 0")
-    marks = [chk, acc.find("nw.m.Unlock()", acc.find("too many connections")), acc.find("peer.SetConn(connID, conn)"),
-             acc.find("nw.addPeer(peer)"), acc.find("nw.m.Lock()", acc.find("nw.addPeer(peer)")),
-             acc.find("nw.need[connID]--"), acc.find("nw.c.Broadcast()")]
-    ctx.fact("acceptConn: check need==0, Unlock, SetConn, addPeer, Lock, need--, Broadcast (three critical sections: "
-             "model steps accTake / accStore / accDec; the store precedes the signal)",
-             all(o >= 0 for o in marks) and marks == sorted(marks) and acc.count("nw.need[connID]--") == 1 and
-             acc.count("nw.c.Broadcast()") == 1, True)
-    ctx.fact("acceptConn: connection id = low byte of the hello magic, checked against len(need)",
-             ["connID := int(byte(magic))" in acc, "connID >= len(nw.need)" in acc,
-              "magic&connMagicMask != connMagic" in acc], [True, True, True])
-    dial = body(r"\(nw \*Network\) dial\(")
-    ctx.fact("dial: rejects connID > 0xff, sends connMagic|connID, self.ID, self.Addr, then peer.SetConn(connID, conn)",
-             ["connID > 0xff" in dial, "magic := connMagic | (connID & 0xff)" in dial,
-              dial.find("conn.SendUint32(self.ID)") > dial.find("conn.SendUint32(magic)") > 0,
-              dial.find("peer.SetConn(connID, conn)") > dial.find("conn.Flush()") > 0], [True] * 4)
-    cp = body(r"\(nw \*Network\) connectPeer\(")
-    ctx.fact("connectPeer: dials the leader only for connID > 0 and exactly the higher ids, then waits for need[connID] == 0",
-             ["if peer.ID == 0 { if connID == 0 { continue } } else if peer.ID <= self.ID { continue }" in cp,
-              "for nw.need[connID] > 0 && !nw.listenerDone { nw.c.Wait() }" in cp,
-              cp.find("nw.dial(peer, connID)") < cp.find("nw.c.Wait()")], [True] * 3)
-    cl = body(r"\(nw \*Network\) connectLeader\(")
-    ctx.fact("connectLeader: waits for need[connID] == 0, then (connID 0) sends len(need), len(Peers)-2 and the other peers",
-             ["for nw.need[connID] > 0 && !nw.listenerDone { nw.c.Wait() }" in cl,
-              "if connID > 0 { return nil }" in cl, "SendUint32(len(nw.Peers) - 2)" in cl,
-              "if i.ID == nw.Self.ID || i.ID == peer.ID { continue }" in cl], [True] * 4)
-    co = body(r"\(nw \*Network\) Connect\(")
-    ctx.fact("Connect: leader sets need[i] = NumParties-1 and starts accept; every party runs connect(0..m-1) in order",
-             ["nw.need[i] = nw.NumParties - 1" in co, "go nw.accept()" in co,
-              "for i := 0; i < len(nw.need); i++ { err := nw.connect(i)" in co], [True] * 3)
-    ptl = body(r"\(nw \*Network\) connectPeerToLeader\(")
-    ctx.fact("connectPeerToLeader: NumParties = 2+n, numAccept counts lower ids, need[i] = numAccept",
-             ["nw.NumParties = 2 + n" in ptl, "if self.ID > id { numAccept++ }" in ptl,
-              "nw.need[i] = numAccept" in ptl], [True] * 3)
-    peer = re.sub(r"\s+", " ", vlib.go_func_body("p2p/peer.go", r"\(p \*Peer\) SetConn\(") or "")
-    ctx.fact("Peer.SetConn: grows Conns to connID+1, refuses an occupied slot, stores",
-             ["if p.Conns[connID] != nil { return" in peer, "p.Conns[connID] = conn" in peer,
-              "make([]*Conn, connID+1)" in peer], [True] * 3)
-    ap = body(r"\(nw \*Network\) addPeer\(")
-    ctx.fact("addPeer: id < NumParties, known peer: SetConn of the carried connections, new peer: append + sort by id",
-             ["if peer.ID >= nw.NumParties" in ap, "err := old.SetConn(i, c)" in ap,
-              "nw.Peers = append(nw.Peers, peer)" in ap, "return nw.Peers[i].ID < nw.Peers[j].ID" in ap], [True] * 4)
+    marks = [acc.find("nw.need[connID] == 0"), acc.find("nw.m.Unlock()", acc.find("too many connections")),
+             acc.find("peer.SetConn(connID, conn)"), acc.find("nw.addPeer(peer)"),
+             acc.find("nw.m.Lock()", acc.find("nw.addPeer(peer)")), acc.find("nw.need[connID]--"),
+             acc.find("nw.c.Broadcast()")]
+    ctx.advise("acceptConn text: check need==0, Unlock, SetConn, addPeer, Lock, need--, Broadcast (model steps accTake / "
+               "accStore / accDec; decided by the trace correspondence and the forced schedules)",
+               all(o >= 0 for o in marks) and marks == sorted(marks), True)
+    ctx.advise("text: wait loop `for nw.need[connID] > 0 && !nw.listenerDone { nw.c.Wait() }`; dial loop skips the leader "
+               "for connID 0 and every id <= self (decided by the d.* events of the trace correspondence)",
+               [net.count("for nw.need[connID] > 0 && !nw.listenerDone { nw.c.Wait() }") >= 1,
+                "if peer.ID == 0 { if connID == 0 { continue } } else if peer.ID <= self.ID { continue }" in net],
+               [True, True])
+    ctx.advise("text connectLeader: only connID 0 sends the info: len(need), len(Peers)-2, every peer but self and the "
+               "recipient (decided by the i.* / g.* events of the trace correspondence)",
+               ["if connID > 0 { return nil }" in net, "SendUint32(len(nw.Peers) - 2)" in net,
+                "if i.ID == nw.Self.ID || i.ID == peer.ID { continue }" in net], [True] * 3)
+    ctx.advise("text Connect / connectPeerToLeader: need[i] = NumParties-1 (leader), NumParties = 2+n, numAccept counts "
+               "lower ids, need[i] = numAccept (decided by the w.* / g.* events and the oracle)",
+               ["nw.need[i] = nw.NumParties - 1" in net, "nw.NumParties = 2 + n" in net,
+                "if self.ID > id { numAccept++ }" in net, "nw.need[i] = numAccept" in net], [True] * 4)
+    peer = re.sub(r"\s+", " ", strip_go_comments(vlib.repo_file("p2p/peer.go")))
+    ctx.advise("text Peer.SetConn / addPeer: refuses an occupied slot, stores; id < NumParties; new peer appended and "
+               "sorted by id (decided by the oracle: table shape, pings)",
+               ["if p.Conns[connID] != nil { return" in peer, "p.Conns[connID] = conn" in peer,
+                "if peer.ID >= nw.NumParties" in net, "nw.Peers = append(nw.Peers, peer)" in net,
+                "return nw.Peers[i].ID < nw.Peers[j].ID" in net], [True] * 5)
 
 
 def run(ctx):
@@ -251,7 +278,7 @@ def run(ctx):
                    str(combos))
         ctx.oblige("every session's ports were available (no exhausted retries)",
                    not any(f.get("sig") == "c19-no-ports" for f in ctx.fails), "")
-        if ctx.broken and not [f for f in ctx.fails if not ctx.is_known(f)]:
+        if ctx.widen:
             # widened search for a concrete failing session (oracle only)
             for s in range(ctx.seed + 7000, ctx.seed + 7003):
                 late = LATE_WIDE if s == ctx.seed + 7000 else ""
@@ -259,7 +286,7 @@ def run(ctx):
                                             extra_args=["-par", "20", "-wide", WIDE_THOROUGH] +
                                             (["-late", late] if late else []))
                 ctx.absorb_meta(meta, prefix="widen_")
-                if [f for f in ctx.fails if not ctx.is_known(f)]:
+                if ctx.fails:
                     break
     ctx.coverage["rule"] = (
         "one session = real p2p.Create/Join/Connect of n parties on loopback TCP in a child process; (n, m) cycles "
